@@ -310,6 +310,11 @@ func (c *vPeerChannel) ReadFcall(ctx context.Context, fc *Fcall) error {
 }
 
 func (c *vPeerChannel) WriteFcall(ctx context.Context, fc *Fcall) error {
+	select {
+	case <-ctx.Done():
+		return ctx.Err()
+	default:
+	}
 	c.nwrites++
 	if c.wfailAt > 0 && c.nwrites == c.wfailAt {
 		return errVMock
@@ -325,3 +330,65 @@ func (c *vPeerChannel) WriteFcall(ctx context.Context, fc *Fcall) error {
 
 func (c *vPeerChannel) MSize() int     { return c.msize }
 func (c *vPeerChannel) SetMSize(m int) { c.msize = m }
+
+// vPipeEnd is one end of an in-memory, unbuffered, full-duplex net.Conn built
+// from interpreted channels (each Write is delivered as one chunk).
+type vPipeEnd struct {
+	rd     chan []byte
+	wr     chan []byte
+	closed chan struct{}
+	peerClosed chan struct{}
+	rest   []byte
+}
+
+func newVPipe() (*vPipeEnd, *vPipeEnd) {
+	ab := make(chan []byte)
+	ba := make(chan []byte)
+	ca := make(chan struct{})
+	cb := make(chan struct{})
+	a := &vPipeEnd{rd: ba, wr: ab, closed: ca, peerClosed: cb}
+	b := &vPipeEnd{rd: ab, wr: ba, closed: cb, peerClosed: ca}
+	return a, b
+}
+
+func (p *vPipeEnd) Read(b []byte) (int, error) {
+	if len(p.rest) == 0 {
+		select {
+		case chunk := <-p.rd:
+			p.rest = chunk
+		case <-p.closed:
+			return 0, io.ErrClosedPipe
+		case <-p.peerClosed:
+			return 0, io.EOF
+		}
+	}
+	n := copy(b, p.rest)
+	p.rest = p.rest[n:]
+	return n, nil
+}
+
+func (p *vPipeEnd) Write(b []byte) (int, error) {
+	cp := append([]byte(nil), b...)
+	select {
+	case p.wr <- cp:
+		return len(b), nil
+	case <-p.closed:
+		return 0, io.ErrClosedPipe
+	case <-p.peerClosed:
+		return 0, io.ErrClosedPipe
+	}
+}
+
+func (p *vPipeEnd) Close() error {
+	select {
+	case <-p.closed:
+	default:
+		close(p.closed)
+	}
+	return nil
+}
+func (p *vPipeEnd) LocalAddr() net.Addr                { return nil }
+func (p *vPipeEnd) RemoteAddr() net.Addr               { return nil }
+func (p *vPipeEnd) SetDeadline(t time.Time) error      { return nil }
+func (p *vPipeEnd) SetReadDeadline(t time.Time) error  { return nil }
+func (p *vPipeEnd) SetWriteDeadline(t time.Time) error { return nil }
